@@ -733,7 +733,7 @@ def drive(prop, module, tier, n_quick, n_thorough, rule_text, assumptions, min_n
         for rid in r.get("changed_rules", []):
             changed_rules[rid] = changed_rules.get(rid, 0) + 1
         for v in p["violations"]:
-            V.violation(v["key"], c, v["detail"])
+            V.violation("%s|%s" % (v["key"], fixrun.variant_class(c)), c, v["detail"])
         for k, v in p.items():
             if k in ("violations", "nontrivial", "skipped"):
                 continue
